@@ -236,6 +236,60 @@ func isPrefixStr(a, b []string) bool {
 	return true
 }
 
+// c10seekRetry positions a fresh reader on every member of the original layout twice (a caller
+// retrying after an error) and reads on: whatever comes back without an error must be the
+// original data from that member on (a prefix of it for a truncated stream).
+func c10seekRetry(c *Ctx, s *c10stream, cas c10case, data []byte) bool {
+	good := true
+	for base, dec := range s.bounds {
+		if base >= len(data) || base >= len(s.data) {
+			continue
+		}
+		base, dec := base, dec
+		guardRun(c, "seek-retry", cas, 120*time.Second, func() {
+			r, err := bgzf.NewReader(bytes.NewReader(data), cas.RD)
+			if err != nil {
+				return
+			}
+			defer r.Close()
+			r.Seek(bgzf.Offset{File: int64(base)})
+			if err := r.Seek(bgzf.Offset{File: int64(base)}); err != nil {
+				return
+			}
+			var got []byte
+			buf := make([]byte, 97)
+			var rerr error
+			for {
+				n, err := r.Read(buf)
+				got = append(got, buf[:n]...)
+				if err != nil {
+					if err != io.EOF {
+						rerr = err
+					}
+					break
+				}
+				if len(got) > len(s.payload)+1000 {
+					break
+				}
+			}
+			want := s.payload[dec:]
+			if len(got) > len(want) || !bytes.Equal(got, want[:len(got)]) {
+				c.Violate("bgzf:"+cas.Kind+":seek-retry:different-data", fmt.Sprintf("%s %s at %d (value %#x) rd=%d: Seek to member offset %d twice, then reading returned %d bytes that are not the original data from there (first difference %d), err %v", s.name, cas.Kind, cas.At, cas.Val, cas.RD, base, len(got), firstDiff(got, want), rerr), cas)
+				good = false
+				return
+			}
+			if cas.Kind == "subst" && rerr == nil && len(got) != len(want) {
+				c.Violate("bgzf:subst:seek-retry:short-without-error", fmt.Sprintf("%s subst at %d (value %#x) rd=%d: Seek to member offset %d twice, then reading ended cleanly after %d of %d bytes", s.name, cas.At, cas.Val, cas.RD, base, len(got), len(want)), cas)
+				good = false
+			}
+		})
+		if !good {
+			return false
+		}
+	}
+	return true
+}
+
 func c10one(c *Ctx, s *c10stream, cas c10case) (nontrivial bool) {
 	var data []byte
 	if cas.Kind == "trunc" {
@@ -249,6 +303,9 @@ func c10one(c *Ctx, s *c10stream, cas c10case) (nontrivial bool) {
 	}
 	res, ok := c10read(c, s, cas, data)
 	if !ok {
+		return true
+	}
+	if !s.isBAM && !c10seekRetry(c, s, cas, data) {
 		return true
 	}
 	kind := "bgzf"
@@ -325,7 +382,7 @@ func c10one(c *Ctx, s *c10stream, cas c10case) (nontrivial bool) {
 }
 
 func c10(c *Ctx) {
-	c.Rule = "streams: BGZF S1 (library writer, blocks 5+4), S2 (2x300 bytes), S4 (independent encoder, blocks [5 0 4]), S3/S5 (one full 65280-byte block, incompressible + 1 byte / compressible) and S6 (independent encoder, a member inflating to exactly 65536 bytes, then 3 bytes) (these three mutated at every position within 24 bytes of a member boundary or of the ends and at every 61st (thorough 7th) position elsewhere); BAM B1 (bam.Writer, 3 records) and B2 (same stream re-blocked so that a record ends at a block end, one spans a boundary and one has its length prefix split), B3 (a block ends right after a record's length prefix). Every truncation length 0..len-1 and every single-byte substitution (quick: b^1, b^0x80, ^b, 0, 0xff, 17, 18, b-1, b+1, and all 255 other values for the eight framing bytes XLEN..BSIZE of every member; thorough: all 255 other values everywhere except in the sparse streams) x rd {1,2}. Oracle: truncation -> a prefix of the original bytes/records then an error, a clean io.EOF only when the cut is at a member boundary (BAM: that is also a record boundary), and then HasEOF is false; substitution -> an error or exactly the original data. Non-trivial: every mutation that changes the stream."
+	c.Rule = "streams: BGZF S1 (library writer, blocks 5+4), S2 (2x300 bytes), S4 (independent encoder, blocks [5 0 4]), S3/S5 (one full 65280-byte block, incompressible + 1 byte / compressible) and S6 (independent encoder, a member inflating to exactly 65536 bytes, then 3 bytes) (these three mutated at every position within 24 bytes of a member boundary or of the ends and at every 61st (thorough 7th) position elsewhere); BAM B1 (bam.Writer, 3 records) and B2 (same stream re-blocked so that a record ends at a block end, one spans a boundary and one has its length prefix split), B3 (a block ends right after a record's length prefix). Every truncation length 0..len-1 and every single-byte substitution (quick: b^1, b^0x80, ^b, 0, 0xff, 17, 18, b-1, b+1, and all 255 other values for the eight framing bytes XLEN..BSIZE of every member; thorough: all 255 other values everywhere except in the sparse streams) x rd {1,2}. Oracle: truncation -> a prefix of the original bytes/records then an error, a clean io.EOF only when the cut is at a member boundary (BAM: that is also a record boundary), and then HasEOF is false; substitution -> an error or exactly the original data; BGZF streams additionally: a fresh reader positioned twice (a retry) on each member offset of the original layout and read on returns, if no error, the original data from there (a prefix for truncations). Non-trivial: every mutation that changes the stream."
 	streams := c10streams(c.Thorough)
 	find := func(n string) *c10stream {
 		for _, s := range streams {
